@@ -203,32 +203,11 @@ def check(prog, rep, tier):
 
     # ---------------------------------------------------------------- R11.c
     recursion(prog, rep)
+    exception_carries_fields(prog, rep, 'R11.d')
 
     # ---------------------------------------------------------------- R11.d
     up = prog.func('yabgp.message.update.Update.parse')
-    par = parents(up.node)
-    outside = []
-    for st in up.node.body:
-        if isinstance(st, ast.Try):
-            if not catch_all_try(st):
-                outside.append((st, 'try without a non-raising catch-all handler'))
-            continue
-        if isinstance(st, (ast.Return, ast.Expr)) and not any(isinstance(n, ast.Call) for n in ast.walk(st)):
-            continue
-        calls = [n for n in ast.walk(st) if isinstance(n, ast.Call)]
-        risky = [c for c in calls if not (src_of(c.func) in ('struct.unpack',))]
-        if isinstance(st, ast.Assign) and not risky:
-            continue        # header reads / slices (total under the stated precondition)
-        if isinstance(st, ast.Assign) and isinstance(st.value, ast.Dict):
-            continue
-        if risky:
-            outside.append((st, 'call %s outside the funnel' % src_of(risky[0].func)))
-    if outside:
-        st, why = outside[0]
-        rep.bad('R11.d', 'Update.parse', file=up.file, line=st.lineno, func=up.qualname, found=why,
-                expected='decoder calls inside try/except Exception', key='Update.parse')
-    else:
-        rep.ok('R11.d', 'Update.parse', file=up.file, line=up.node.lineno)
+    update_parse_funnel(prog, rep, 'R11.d')
     # the generic handlers themselves cannot raise: they use the exception object only through
     # str()/repr()/logging (attributes such as .data exist on UpdateMessageError only)
     for fn in (up, prog.func('yabgp.message.update.Update.parse_attributes')):
@@ -342,14 +321,45 @@ def analyse(prog, f, ws, obs, depth):
         return str(e)
 
 
+def update_parse_funnel(prog, rep, rule):
+    """Everything Update.parse does after the two length-field reads is inside try/except Exception: no call and no
+    raise at the top level of the function (an exception there leaves the decoder instead of a result object)."""
+    up = prog.func('yabgp.message.update.Update.parse')
+    outside = []
+    for st in up.node.body:
+        if isinstance(st, ast.Try):
+            if not catch_all_try(st):
+                outside.append((st, 'try without a non-raising catch-all handler'))
+            continue
+        if isinstance(st, (ast.Return, ast.Expr)) and not any(isinstance(n, ast.Call) for n in ast.walk(st)):
+            continue
+        calls = [n for n in ast.walk(st) if isinstance(n, ast.Call)]
+        risky = [c for c in calls if not (src_of(c.func) in ('struct.unpack',))]
+        if isinstance(st, ast.Assign) and not risky:
+            continue        # header reads / slices (total under the stated precondition)
+        if isinstance(st, ast.Assign) and isinstance(st.value, ast.Dict):
+            continue
+        if risky:
+            outside.append((st, 'call %s outside the funnel' % src_of(risky[0].func)))
+        elif any(isinstance(n, ast.Raise) for n in ast.walk(st)):
+            outside.append((st, 'raise outside the funnel'))
+    if outside:
+        st, why = outside[0]
+        rep.bad(rule, 'Update.parse', file=up.file, line=st.lineno, func=up.qualname, found=why,
+                expected='decoder calls inside try/except Exception', key='Update.parse')
+    else:
+        rep.ok(rule, 'Update.parse', file=up.file, line=up.node.lineno)
+
+
 def _cannot_raise(st):
     """Statements of an exception constructor that cannot raise: plain copies and %-formatting with %(name)s."""
     if isinstance(st, ast.Assign):
         v = st.value
         if isinstance(v, (ast.Name, ast.Constant, ast.Attribute)):
             return True
-        if isinstance(v, ast.BinOp) and isinstance(v.op, ast.Mod) and isinstance(v.left, (ast.Attribute, ast.Name, ast.Constant)):
-            return True
+        if isinstance(v, ast.BinOp) and isinstance(v.op, ast.Mod) and isinstance(v.left, (ast.Attribute, ast.Constant)) and \
+                all(isinstance(x, (ast.Dict, ast.Tuple, ast.Name, ast.Constant, ast.Load)) for x in ast.walk(v.right)):
+            return True         # class-level template % plain names: %(name)s of anything formats
     if isinstance(st, ast.Expr) and isinstance(st.value, ast.Constant):
         return True
     return False
@@ -381,6 +391,23 @@ def exception_init_gap(prog):
                     if not sets and not _cannot_raise(st) and pending is None:
                         pending = st
     return None
+
+
+def exception_carries_fields(prog, rep, rule):
+    """Every exception of the NotificationSent family carries sub_error and data: its consumers (parse_buffer,
+    Update.parse) read them without a guard."""
+    gap = exception_init_gap(prog)
+    base = prog.cls('yabgp.common.exception.NotificationSent')
+    key = 'exception-carries-sub-error'
+    if gap is not None:
+        cf, cst = gap
+        rep.bad(rule, key, file=cf.file, line=cst.lineno, func=cf.qualname,
+                found='`%s` may raise before self.sub_error / self.data are assigned and the constructor swallows that: '
+                      'the exception object then lacks the attributes its handlers read (AttributeError inside the '
+                      'handler, swallowed by the catch-all of parse_buffer or escaping Update.parse)' % src_of(cst)[:90],
+                expected='nothing that can raise before the two assignments', key=key)
+    else:
+        rep.ok(rule, key, file=base.module.relpath, line=base.node.lineno)
 
 
 def _handler_names(h):
